@@ -52,7 +52,9 @@ RULE = ("a case = experiment descriptor (1-3 environments x 1-3 learners x 1-2 e
         "(4 KiB for gz) the tail search of the restore works in. File kinds everywhere: log.txt, log.gz and paths that merely "
         "contain '.gz' (log.gz.bak, runs.gz.d/log.txt - gzip by coba's rule). In 'point'/'multiproc' (1 in 2) and 'sweep' (1 in 3) the "
         "records of the uninterrupted log are first permuted the way worker output can arrive in a multi-process run (version and "
-        "experiment record stay first; E/L/V/I records in a generated order), then cut. A case is non-trivial when a crash offset lies strictly "
+        "experiment record stay first; E/L/V/I records in a generated order), then cut. 1 in 4 generated experiments with >= 2 "
+        "environments use shuffles of one chunk()ed base (one task chunk); re-runs use maxtasksperchunk 0..5; 'chunked' enumerates "
+        "fixed chunked experiments x maxtasksperchunk x every record boundary. A case is non-trivial when a crash offset lies strictly "
         "inside a record or between two I records; distinct = distinct canonical JSON of the case")
 ASSUMPTIONS = [
     "the re-run uses 'the same experiment': an identically constructed twin (same components in the same order, same seed, same description)",
@@ -551,6 +553,10 @@ def descriptors(draw, small=False, timing=True):
             if draw(st.booleans()): ne = 2
             else: nl = 2
     envs = [draw(env_descs(small)) for _ in range(ne)]
+    if ne >= 2 and draw(one_in(4)):      # the environments are shuffles of one chunk()ed base: coba puts their tasks into ONE chunk
+        base = {"kind": "linear", "n": draw(st.integers(1, 4)), "na": 2, "seed": draw(st.integers(1, 9)), "ncf": 1, "naf": 1, "group": 0}
+        keep = draw(st.sampled_from([0, 0, 1])) if ne == 3 else 0       # sometimes one environment stays outside the chunk
+        envs = envs[:keep] + [dict(base, shuffle=i + 1) for i in range(ne - keep)]
     lrns = [draw(lrn_descs()) for _ in range(nl)]
     vals = [draw(val_descs(timing)) for _ in range(nv)]
     desc = {"envs": envs, "lrns": lrns, "vals": vals, "shape": shape,
@@ -594,7 +600,7 @@ def sweep_cases(draw, tier):
     every = tier == "thorough" and draw(one_in(4))       # every byte offset (if the log turns out <= 2 KB)
     desc = draw(descriptors(small=every))
     return dict(draw(file_kinds()), desc=desc, fracs=[draw(st.integers(0, 99)) / 100 for _ in range(3)],
-                mt=draw(st.sampled_from([0, 0, 1, 2])), all=every, perm=draw(perms(3)))
+                mt=draw(st.sampled_from([0, 0, 1, 2, 3, 4, 5])), all=every, perm=draw(perms(3)))
 
 @st.composite
 def point_cases(draw, tier):
@@ -602,7 +608,7 @@ def point_cases(draw, tier):
     cuts = [draw(selectors())]
     if draw(one_in(4)):
         cuts.append(draw(selectors()))
-    return dict(draw(file_kinds()), desc=desc, cuts=cuts, config={"maxtasksperchunk": draw(st.sampled_from([0, 0, 1, 3]))}, perm=draw(perms(2)))
+    return dict(draw(file_kinds()), desc=desc, cuts=cuts, config={"maxtasksperchunk": draw(st.sampled_from([0, 0, 1, 2, 3, 4, 5]))}, perm=draw(perms(2)))
 
 @st.composite
 def multiproc_cases(draw, tier):
@@ -694,6 +700,42 @@ def enumerate_bytes(tier):
             n = log_size(i, gz)
             for b in range(0, n // BLOCK + 1):
                 yield {"fixed": i, "gz": gz, "block": b}
+
+# ----------------------------------------------------------------------------------------------- chunk()ed environments x maxtasksperchunk
+def _cg(group, shuffle, n=2, na=2, seed=1): return {"kind": "linear", "n": n, "na": na, "seed": seed, "ncf": 1, "naf": 1, "group": group, "shuffle": shuffle}
+
+CHUNKED = [
+    # 0: one chunk: 2 shuffles x 2 learners x 1 evaluator = 2 parameter + 4 evaluation tasks
+    {"envs": [_cg(0, 1), _cg(0, 2)], "lrns": [{"kind": "random"}, {"kind": "ucb"}], "vals": [_seq(["reward"])],
+     "shape": "cross", "description": None, "seed": 1},
+    # 1: one chunk: 3 shuffles x 2 learners x 2 evaluators = 3 + 12 tasks
+    {"envs": [_cg(0, 1), _cg(0, 2), _cg(0, 3)], "lrns": [{"kind": "hist", "k": 2, "info": False}, {"kind": "epsilon", "eps": 0.1}],
+     "vals": [_seq(["reward"]), {"kind": "rows", "every": 2}], "shape": "cross", "description": None, "seed": 2},
+    # 2: two chunks (2 + 2 shuffles of different bases) and an environment outside any chunk, 3 learners: 2 x (2 + 6) tasks + 1 + 3
+    {"envs": [_cg(0, 1), _cg(1, 1, seed=5), _g(2, 2, 3), _cg(0, 2), _cg(1, 4, seed=5)], "lrns": [{"kind": "random"}, {"kind": "pmf", "lean": 0.8}, {"kind": "ucb"}],
+     "vals": [_seq(["reward", "action"])], "shape": "cross", "description": "chunks", "seed": 3},
+]
+
+def enumerate_chunked(tier):
+    """every number of pending tasks a chunk can have: cuts at k=0 and behind EVERY record (the in-process log finishes the tasks of a
+    chunk one by one), re-run with each maxtasksperchunk"""
+    for i in ((0, 1) if tier == "quick" else range(len(CHUNKED))):
+        for mt in ((2, 3, 4, 5) if tier == "quick" else (1, 2, 3, 4, 5, 6, 7)):
+            for gz in ((False,) if tier == "quick" and mt != 4 else (False, True)):
+                for perm in ((None,) if tier == "quick" else (None, [5, 1, 7, 3, 11, 2])):
+                    yield {"chunked": i, "gz": gz, "mt": mt, "perm": perm, "interior": tier != "quick"}
+
+def run_chunked(case):
+    desc, gz = CHUNKED[case["chunked"]], case["gz"]
+    with Env() as env:
+        log, records = baseline(env, desc, gz)
+        log, records = permute_log(log, records, gz, case.get("perm"))
+        ks = {0} | {e for _, e, _ in records}
+        if case.get("interior"): ks |= {(s_ + e_) // 2 for s_, e_, _ in records}
+        run_offsets(env, desc, gz, log, records, sorted(ks), {"maxtasksperchunk": case["mt"]})
+
+def classes_chunked(case):
+    return ["gz" if case["gz"] else "plain", "maxtasksperchunk=%d" % case["mt"], "chunked=%d" % case["chunked"]] + (["permuted"] if case.get("perm") else [])
 
 # ----------------------------------------------------------------------------------------------- gz members ending on a read-block boundary
 GZBLOCK = 4096           # the step in which coba's restore reads a .gz log while looking for the last complete member
@@ -803,6 +845,7 @@ def desc_classes(desc):
     if has_rowless(desc): out.append("maybe-rowless-record")
     used = [l for _, l, _ in C.triple_indices(desc)]
     if any(used.count(l) > 1 for l in set(used)): out.append("learner-shared")
+    if any("group" in e for e in desc["envs"]): out.append("chunked-environments")
     return out
 
 def kind_class(case):
@@ -866,6 +909,9 @@ SUBCHECKS = [
     Sub(name="big", run=run_big, enumerate=enumerate_big, nontrivial=lambda c: True, classes=classes_big, classify=classify,
         quick_shards=1, thorough_shards=16, quick_budget_s=45, thorough_budget_s=150,
         what="fixed experiments with logs of 360 KB and records of 66-200 KB: cuts leaving a partial final record of 65534..65538 / 131071..131073 / 131072+777 bytes, and first/middle/last byte and end of every record lying beyond the first 64 KiB (plain); 4095..4097 / 8191..8193 / trailer bytes of big members (gz); plus .gz logs holding one record of 1.1-9 million constant characters (I record in the middle / experiment description; a few KB of gzip inflating > 1 MiB per 4 KiB block): resume from the complete log and from every cut behind that record"),
+    Sub(name="chunked", run=run_chunked, enumerate=enumerate_chunked, nontrivial=lambda c: True, classes=classes_chunked, classify=classify,
+        quick_shards=1, thorough_shards=8, quick_budget_s=45, thorough_budget_s=150,
+        what="fixed experiments over chunk()ed environments (6 and 15 tasks in one chunk; thorough: also two chunks + an unchunked environment): cut at k=0 and behind EVERY record (every number of pending tasks per chunk), re-run with maxtasksperchunk 2,3,4,5 (thorough 1..7, plain and gz, permuted logs, record interiors)"),
     Sub(name="gzblock", run=run_gzblock, enumerate=enumerate_gzblock, nontrivial=lambda c: c["pad"] is not None and c["end"] % GZBLOCK == 0,
         classes=classes_gzblock, classify=classify, quick_shards=1, thorough_shards=4, quick_budget_s=45, thorough_budget_s=150,
         what=".gz logs padded (experiment description, searched one character at a time with the real DiskSink) until a chosen non-final member (experiment / parameter / I record) ends exactly at 4096*k, k=1,2 (controls +-1): resume from the complete log, from every record boundary and first/last/middle byte of every record behind that boundary"),
